@@ -2329,11 +2329,8 @@ def cbw(info):
     return e
 
 def cwd(info):
-    # TODO: emulation is not valid
-    e = []
-    e.append(ExprAff(eax, edx))
-    e.append(ExprAff(edx, eax))
-    return e
+    # dx:ax = sign extension of ax (cdq handles both operand sizes)
+    return cdq(info)
 
 # XXX TODO
 def aaa_stub(info, *arg):
